@@ -75,7 +75,7 @@ def RefFreeEv : MEv → Prop
 /-- the two back ends as `Ops` that differ only in the hook -/
 def withBackend (o : Ops) (loose : Bool) : Ops := { o with loose := loose }
 
-theorem startPre_agnostic (o : Ops) (s : MSt) (tag : Str) (attrs : List (Str × Str))
+theorem startPre_agnostic (o : Ops) (s : Core) (tag : Str) (attrs : List (Str × Str))
     (h : ∀ kv ∈ attrs, ∀ c ∈ kv.2, c ≠ '&') :
     startPre (withBackend o true) s tag attrs = startPre (withBackend o false) s tag attrs := by
   have hm : attrs.map (normAttr true) = attrs.map (normAttr false) := by
@@ -90,7 +90,7 @@ theorem step_agnostic (o : Ops) (s : MSt) (e : MEv) (h : RefFreeEv e) :
   cases e with
   | start tag attrs =>
     simp only [mstep, startTag]
-    rw [startPre_agnostic o s tag attrs h]
+    rw [startPre_agnostic o s.c tag attrs h]
   | stop tag => rfl
   | data t => rfl
   | ns p u => rfl
